@@ -25,6 +25,8 @@ package disk
 //@   ensures[C10] count: len(result) == nnOld(blobs, len(blobs))
 //@   ensures[C10] nonnil: forall k Int :: (lo(blobs) <= k && k < lo(blobs) + len(result)) ==> elems(blobs)[k] != 0
 //@   ensures[C10] kept: forall k Int :: (lo(blobs) <= k && k < hi(blobs) && old(elems(blobs))[k] != 0) ==> elems(blobs)[lo(blobs) + nnOld(blobs, k - lo(blobs))] == old(elems(blobs))[k]
+//@   ensures[C10] outside: forall k Int :: (k < lo(blobs) || k >= hi(blobs)) ==> elems(blobs)[k] == old(elems(blobs))[k]
+//@   loop 0 invariant outside: forall k Int :: (k < lo(blobs) || k >= hi(blobs)) ==> elems(blobs)[k] == old(elems(blobs))[k]
 //@   loop 0 invariant idx: 0 <= i && i <= len(blobs) && 0 <= count && count <= i
 //@   loop 0 invariant cnt: count == nnOld(blobs, i)
 //@   loop 0 invariant rest: forall k Int :: (lo(blobs) + i <= k && k < hi(blobs)) ==> elems(blobs)[k] == old(elems(blobs))[k]
@@ -51,6 +53,8 @@ package disk
 //@   ensures[C10] keptornil: forall k Int :: (lo(blobs) <= k && k < hi(blobs)) ==> (elems(blobs)[k] == 0 || elems(blobs)[k] == old(elems(blobs))[k])
 //@   ensures[C06,C10] exact: forall k Int :: (lo(blobs) <= k && k < hi(blobs)) ==>
 //@       ((elems(blobs)[k] == 0) <==> (emptyDig(old(elems(blobs))[k]) || casPresent(c, old(elems(blobs))[k])))
+//@   ensures[C10] outside: forall k Int :: (k < lo(blobs) || k >= hi(blobs)) ==> elems(blobs)[k] == old(elems(blobs))[k]
+//@   loop 0 invariant outside: forall k Int :: (k < lo(blobs) || k >= hi(blobs)) ==> elems(blobs)[k] == old(elems(blobs))[k]
 //@   loop 0 invariant lock: muHeld && lruInv(c.lru)
 //@   loop 0 invariant rest: forall k Int :: (lo(blobs) + rangeindex + 1 <= k && k < hi(blobs)) ==> elems(blobs)[k] == old(elems(blobs))[k]
 //@   loop 0 invariant keptornil: forall k Int :: (lo(blobs) <= k && k < lo(blobs) + rangeindex + 1) ==> (elems(blobs)[k] == 0 || elems(blobs)[k] == old(elems(blobs))[k])
@@ -58,3 +62,44 @@ package disk
 //@       ((elems(blobs)[k] == 0) <==> (emptyDig(old(elems(blobs))[k]) || casPresent(c, old(elems(blobs))[k])))
 //@   loop 0 invariant cnt: missing == nncount(elems(blobs), lo(blobs), rangeindex + 1) && 0 <= missing
 //@   loop 0 modifies c.lru.ll.seq, elems(blobs), hitN, hitSize
+
+// A worker nils the slot only if the backend said "present", and reports a miss
+// through onProxyMiss otherwise; it always signals completion exactly once.
+//@ ghost wgDone Int
+//@ ghost missCalls Int
+//@ func (c *diskCache) containsWorker()
+//@   serves C06 C10 C18
+//@   requires c != nil && c.proxy != nil && c.accessLogger != nil
+//@   allowpanic
+//@   call Contains#* asserts[C10] asksdigest: arg2 == 1
+
+//@ func (c *diskCache) FindMissingCasBlobs(ctx context.Context, blobs []*pb.Digest) ([]*pb.Digest, error)
+//@   serves C10
+//@   requires wfCache(c) && !muHeld && c.accessLogger != nil && ctx != nil
+//@   requires[C14] nonnil: forall k Int :: (lo(blobs) <= k && k < hi(blobs)) ==> elems(blobs)[k] != 0
+//@   modifies lruState(c.lru), elems(blobs), hitN, hitSize, visited
+//@   ensures[C07] unlocked: !muHeld
+//@   ensures[C10] subset: result1 == nil ==> (arr(result0) == arr(blobs) && offset(result0) == offset(blobs) && len(result0) <= len(blobs))
+//@   ensures[C10] noproxyall: (result1 == nil && c.proxy == nil) ==> visited == old(visited) + len(blobs)
+//@   call findMissingCasBlobsInternal#* asserts[C10] notfailfast: arg2 == blobs && !arg3
+//@   call filterNonNil#* asserts[C10] same: arg0 == blobs
+
+//@ func (c *diskCache) findMissingCasBlobsInternal(ctx context.Context, blobs []*pb.Digest, failFast bool) error
+//@   serves C06 C10 C18
+//@   requires wfCache(c) && !muHeld && c.accessLogger != nil && ctx != nil
+//@   requires[C14] nonnil: forall k Int :: (lo(blobs) <= k && k < hi(blobs)) ==> elems(blobs)[k] != 0
+//@   modifies lruState(c.lru), elems(blobs), hitN, hitSize, visited
+//@   ensures[C07] unlocked: !muHeld
+//@   ensures[C10] allvisited: (result == nil) ==> visited == old(visited) + len(blobs)
+//@   ensures[C06] failfastlocal: (result == nil && failFast && c.proxy == nil) ==> (forall k Int :: (lo(blobs) <= k && k < hi(blobs)) ==> elems(blobs)[k] == 0)
+//@   lensures[C06] failfastproxy: (result == nil && failFast && c.proxy != nil) ==> !cancelledDueToFailFast
+//@   ensures[C10] kept: forall k Int :: (lo(blobs) <= k && k < hi(blobs)) ==> (elems(blobs)[k] == 0 || elems(blobs)[k] == old(elems(blobs))[k] || c.proxy != nil)
+//@   loop 0 invariant batch: arr(remaining) == arr(blobs) && lo(blobs) <= lo(remaining) && hi(remaining) == hi(blobs) || len(remaining) == 0
+//@   loop 0 invariant progress: visited == old(visited) + (len(blobs) - len(remaining))
+//@   loop 0 invariant lock: !muHeld
+//@   loop 0 invariant kept: forall k Int :: (lo(blobs) <= k && k < hi(blobs)) ==> (elems(blobs)[k] == 0 || elems(blobs)[k] == old(elems(blobs))[k] || c.proxy != nil)
+//@   loop 0 invariant done: (failFast && c.proxy == nil) ==> (forall k Int :: (lo(blobs) <= k && k < hi(blobs) - len(remaining)) ==> elems(blobs)[k] == 0)
+//@   loop 0 invariant nonnilrest: forall k Int :: (hi(blobs) - len(remaining) <= k && k < hi(blobs)) ==> elems(blobs)[k] != 0
+//@   loop 0 modifies lruState(c.lru), elems(blobs), hitN, hitSize, visited
+//@   loop 1 modifies nothing
+//@   call findMissingLocalCAS#* asserts[C10] chunk: arr(arg1) == arr(blobs) && lo(arg1) == hi(blobs) - len(remaining) - len(arg1) && 0 < len(arg1) && len(arg1) <= 20
